@@ -424,7 +424,8 @@ fn parse_nested_chunks<R: Read + Seek>(
         let chunk_size = header.size;
 
         // Check if we have enough remaining data for this chunk
-        let remaining_data = end_pos - reader.stream_position()?;
+        let chunk_data_start = reader.stream_position()?;
+        let remaining_data = end_pos - chunk_data_start;
         if chunk_size as u64 > remaining_data {
             // Chunk claims more data than available - truncated file or corrupted chunk
             // Skip parsing this chunk and stop
@@ -478,6 +479,20 @@ fn parse_nested_chunks<R: Read + Seek>(
                 let count = chunk_size / 4; // Each color is 4 bytes (BGRA)
                 for _ in 0..count {
                     group.vertex_colors.push(MocvEntry::read(reader)?);
+                }
+            }
+            "MOLR" => {
+                // Read light references
+                let count = chunk_size / 2; // Each ref is 2 bytes
+                for _ in 0..count {
+                    group.light_refs.push(reader.read_le()?);
+                }
+            }
+            "MODR" => {
+                // Read doodad references
+                let count = chunk_size / 2; // Each ref is 2 bytes
+                for _ in 0..count {
+                    group.doodad_refs.push(reader.read_le()?);
                 }
             }
             "MOBN" => {
@@ -562,6 +577,10 @@ fn parse_nested_chunks<R: Read + Seek>(
                 reader.seek(SeekFrom::Current(chunk_size as i64))?;
             }
         }
+
+        // Always continue at the end of this chunk: some arms read only part of the payload
+        // (MLIQ header, sizes that are not a multiple of the record size)
+        reader.seek(SeekFrom::Start(chunk_data_start + chunk_size as u64))?;
     }
 
     Ok(())
